@@ -360,6 +360,9 @@ func (x *Exec) specIdent(env *SpecEnv, e *EIdent) Value {
 					}
 				}
 				if v, ok := env.st.vars[o]; ok {
+					if _, isStruct := v.(StructV); isStruct && isSyncType(o.Type()) {
+						return OpaqueV{T: x.eng.addrOf(x, o), Typ: o.Type()} // sync.X held by value: identified by its address
+					}
 					return v
 				}
 				if o.Parent() == o.Pkg().Scope() {
